@@ -170,19 +170,67 @@ def expected_blocks(v, W, H, count):
     return out
 
 
+def large_framing(r, quick):
+    """C10 beyond small sizes: megabytes consumed through the overlap cache, blocks larger than a mebibyte under a limiter,
+    judged directly on the bytes (block k = samples [k*hop, k*hop + W) of the visible data)."""
+    from auditok.util import AudioReader
+    evals, viol = 0, None
+    cfgs = [  # rate, sw, ch, seconds, block_dur, hop_dur, max_read
+        (16000, 2, 1, 40.0, 0.05, 0.03, None),
+        (16000, 2, 1, 40.0, 0.05, 0.03, 37.77),
+        (192000, 4, 2, 3.0, 1.0, None, 2.5),
+        (192000, 4, 2, 3.0, 1.0, 0.25, 2.5),
+        (48000, 2, 3, 9.0, 0.5, 0.2, None),
+    ] + ([] if quick else [(8000, 1, 1, 700.0, 0.01, 0.007, None), (384000, 4, 8, 1.0, 0.1, None, 0.95)])
+    for (rate, w, ch, secs, bd, hd, mr) in cfgs:
+        bps = w * ch
+        n = int(secs * rate)
+        data = bytes(r.getrandbits(8) for _ in range(4096)) * (n * bps // 4096 + 1)
+        data = bytearray(data[:n * bps])
+        for i in range(0, len(data), 4099):        # break the period
+            data[i] = (i // 4099) % 256
+        data = bytes(data)
+        W = int(bd * rate); H = W if hd is None else int(hd * rate)
+        vis = n if mr is None else min(n, round(mr * rate))
+        try:
+            rd = AudioReader(data, block_dur=bd, hop_dur=hd, max_read=mr, sr=rate, sw=w, ch=ch)
+            rd.open()
+            k = 0
+            what = None
+            while True:
+                b = rd.read()
+                due = (k == 0 and vis > 0) or (k > 0 and k * H + (W - H) < vis)
+                exp = data[k * H * bps:min(k * H + W, vis) * bps] if due else None
+                if b != exp:
+                    what = "block %d is %s, expected %s (block %d samples, hop %d samples, %d visible samples of %d bytes each)" % (
+                        k, "None" if b is None else "%d samples%s" % (len(b) // bps, "" if exp is None or len(b) != len(exp) else " with other content"),
+                        "None" if exp is None else "samples [%d, %d)" % (k * H, min(k * H + W, vis)), W, H, vis, bps)
+                    break
+                if b is None:
+                    break
+                k += 1
+            evals += 1
+            if what and viol is None:
+                viol = {"what": what, "rate": rate, "format(sw,ch)": [w, ch], "seconds": secs, "block_dur": bd, "hop_dur": hd, "max_read": mr}
+        except Exception as e:   # noqa
+            viol = viol or {"what": "large reader configuration raised %s: %s" % (type(e).__name__, e), "rate": rate, "block_dur": bd, "hop_dur": hd, "max_read": mr}
+    return evals, viol
+
+
 def long_recordings(r, quick):
     """C19 on long recordings (thousands of reads before the first rewind), judged directly on the bytes"""
     from auditok.util import AudioReader, Recorder
     evals, viol = 0, None
-    for (n, W, H, mr, w, ch) in ([(2600, 1, None, None, 2, 1), (2300, 2, 1, None, 1, 2), (5000, 4, 1, 2.5, 2, 1), (1500, 1, None, 1.2, 1, 1)] if quick else
+    for (n, W, H, mr, w, ch) in ([(2600, 1, None, None, 2, 1), (2300, 2, 1, None, 1, 2), (5000, 4, 1, 2.5, 2, 1), (1500, 1, None, 1.2, 1, 1), (9500, 1, None, None, 2, 1),
+                                  (73000, 73, None, None, 1, 1)] if quick else
                                  [(2600, 1, None, None, 2, 1), (2300, 2, 1, None, 1, 2), (5000, 4, 1, 2.5, 2, 1), (1500, 1, None, 1.2, 1, 1),
                                   (9000, 3, 2, None, 4, 1), (7000, 1, None, 6.0005, 2, 2), (4200, 2, None, None, 2, 3)]):
-        rate = 1000
+        rate = 1000 if n < 50000 else 10          # the last kind is more than two hours of audio at 10 Hz
         bps = w * ch
         data = bytes(r.randrange(256) for _ in range(n * bps))
         vis = n if mr is None else min(n, round(mr * rate))
         hop = W if H is None else H
-        for k in (1030, 1500, 2049, 10 ** 6):
+        for k in (1030, 1500, 2049, 4500, 10 ** 6):
             for cls in ("AudioReader", "Recorder"):
                 try:
                     kw = dict(block_dur=W / rate, hop_dur=(None if H is None else H / rate), max_read=mr, sr=rate, sw=w, ch=ch)
@@ -212,7 +260,7 @@ def long_recordings(r, quick):
                 consumed = 0 if nb == 0 else min(vis, nb * W if H is None else W + (nb - 1) * hop)
                 what = None
                 if got != data[:consumed * bps]:
-                    what = "data holds %d bytes after %d reads, the consumed portion is %d bytes%s" % (len(got), nb, consumed * bps, "" if len(got) == consumed * bps else " (content differs too)" if got != data[:len(got)] else "")
+                    what = "data holds %d bytes after %d reads, the consumed portion is %d bytes%s" % (len(got), nb, consumed * bps, " but with other content (order or values)" if len(got) == consumed * bps else " (content differs too)" if got != data[:len(got)] else "")
                 elif replay[:nb] != blocks[:len(replay)] or len(replay) < min(nb, 1):
                     what = "replay after rewind differs from the blocks read before it (first difference at block %d)" % next((i for i, (a, b) in enumerate(zip(replay, blocks)) if a != b), min(len(replay), nb))
                 elif again != got:
@@ -333,6 +381,11 @@ def run(prop, tier):
                 viol = {"what": wv, **meta[i], "impl_outputs": outs}
         if any(x[0] == 0 and x[1] for x in mo):
             nontriv.add(C.dumps(cs))
+    if prop == "C10":
+        ev_l, v_l = large_framing(r, quick)
+        res.notes["large_configurations"] = ev_l
+        if viol is None and v_l:
+            viol = v_l
     if prop == "C19":
         ev_l, v_l = long_recordings(r, quick)
         res.notes["long_recordings"] = ev_l
